@@ -111,7 +111,7 @@ def _nested_of(A):
 
 
 contract(f"{DP}::from_2d_array_to_nested", "C16,C15", cases=["-"], assumed=True, inputs=lambda B, case: {},
-         applicable=lambda A: isinstance(A.X, Opaque),
+         applicable=lambda A: isinstance(A.X, Opaque) or (isinstance(A.X, SArr) and A.X.ndim == 2),
          returns=lambda A: (lambda o: (setattr(o, "attrs", {"T": Opaque("transposed nested", prov=("T", o))}) or o))(_nested_of(A)),
          notes=["ASSUMED: from_2d_array_to_nested(a) has one row per row of a, cell = that row as a series (bounded tier: C15)"])
 
